@@ -94,6 +94,16 @@ def correspondence(ctx):
 
 
 def check_case(pts, t, off):
+    msg = check_case_fresh(pts, t, off)
+    if msg is None and len(pts) >= 3:
+        # the lookup describes the segment as it is now: look a point up, change the control points in place, look the same points up again
+        q0 = oc.mkseg(pts).pointAtTime(t)
+        qs = [Point(q0.x, q0.y), Point(pts[0][0], pts[0][1]), Point(pts[-1][0] + 1.0, pts[-1][1] - 1.0)]
+        msg = oc.stale_check(pts, hash((tuple(pts), t)) & 0xFFFFFF, [("tOfPoint(%r)" % q, (lambda q: lambda s: s.tOfPoint(q))(q)) for q in qs])
+    return msg
+
+
+def check_case_fresh(pts, t, off):
     seg = oc.mkseg(pts)
     M = max(1.0, oc.maxabs(pts))
     q = seg.pointAtTime(t)
